@@ -241,6 +241,19 @@ impl DB {
         self.background_work_finished_signal.notify_all();
     }
 
+    /// Verification hook: a manual compaction of level 0 is set up (`VersionSet::compact_range`) and installed at once, without
+    /// outputs, on the calling thread. Returns (WAL number recorded by the version set before, after, the guarded current WAL
+    /// number) - None if level 0 is empty.
+    pub fn install_level_zero_compaction_for_verif(&self) -> Option<(u64, u64, u64)> {
+        let mut guard = self.guarded_fields.lock();
+        let before = guard.version_set.get_curr_wal_number();
+        let manifest = guard.version_set.compact_range(0, None..None)?;
+        let mut state = crate::compaction::state::CompactionState::new(manifest, 0);
+        CompactionWorker::install_compaction_results_for_verif(&mut guard, &mut state);
+        state.compaction_manifest_mut().release_inputs(&mut guard.version_set);
+        Some((before, guard.version_set.get_curr_wal_number(), guard.curr_wal_file_number))
+    }
+
     /// Verification hook: number of level-0 files of the current version.
     pub fn num_level_zero_files_for_verif(&self) -> usize {
         self.guarded_fields.lock().version_set.num_files_at_level(0)
